@@ -116,6 +116,8 @@ class G:
     def equality(self):
         """(= (+ A B) c): usable for eliminating A"""
         a, b = self.rng.sample(self.terms, 2)
+        if self.rng.random() < 0.3:       # A = B written as a difference that is zero
+            return L(S("="), L(S("-"), a, b), N(0))
         return L(S("="), L(S("+"), a, L(S("*"), self.const(), b)), self.const())
 
 
@@ -147,9 +149,29 @@ def aligned_case(seed, cid):
             "exact": True, "need": 4, "shape": "aligned"}
 
 
+def eqdiff_case(seed, cid):
+    """two fluents tied by an equality written as a difference (or a sum) that is zero, and inequalities that
+    mention the one an elimination would remove: (= (- A B) 0) means A = B, (= (+ A B) 0) means A = -B"""
+    rng = random.Random(seed * 2750159 + cid)
+    a, b, c = rng.sample(TERMS, 3)
+    eq = L(S("="), L(S(rng.choice(["-", "-", "+"])), a, b), N(0))
+    conds = [eq]
+    for _ in range(rng.choice([1, 2])):
+        left = rng.choice([a, L(S("+"), a, c), L(S("*"), N(2), a), L(S("-"), c, a)])
+        k = Fraction(rng.choice([1, 2, 3, -1, 5]), rng.choice([1, 2]))
+        conds.append(L(S(rng.choice(["<", "<=", ">=", ">"])), left, N(k.numerator, k.denominator)))
+    rng.shuffle(conds)
+    # every constant is an integer or a half: representable at the requested decimals, so the equivalence is
+    # judged exactly (with a rounding band an equality is never more than "undetermined")
+    return {"id": cid, "tree": domain_tree(conds), "digits": rng.choice([2, 4, 6]), "how": "print",
+            "exact": True, "need": 1, "shape": "eqdiff"}
+
+
 def gen_case(seed, cid):
     if cid % 8 == 5:
         return aligned_case(seed, cid)
+    if cid % 8 == 3:
+        return eqdiff_case(seed, cid)
     rng = random.Random(seed * 2750159 + cid)
     terms = rng.sample(TERMS, rng.choice([1, 2, 2, 3, 4]))
     kinds = rng.choice([["int"], ["int", "dec"], ["int", "dec"], ["int", "near"], ["dec"], ["dec", "near"], ["int", "dec", "near"]])
